@@ -32,6 +32,9 @@ ASSUMPTIONS = ['worst-case expectations of max-of-affine functions over polytope
 
 
 def gen_case(rng, idx, tier):
+    if rng.random() < 0.1:
+        from rv import evconvex
+        return evconvex.gen(rng, tier)
     r = rng.random()
     if r < 0.12:
         spec = DR.gen(rng, tier, exact_only=True)
@@ -58,6 +61,9 @@ def gen_case(rng, idx, tier):
 
 
 def run_case(spec, ctx):
+    if spec.get('kind') == 'evconvex':
+        from rv import evconvex
+        return evconvex.run(spec, ctx, exact=True)
     rng = np.random.default_rng(spec['spell'])
     ref = DR.reference(spec)
     if ref.status != 'optimal':
